@@ -178,9 +178,19 @@ PROPS["C16"] = dict(
     explanation="parseLine PROVED to raise only LineTooLong (an HTTPException) and only beyond the limit. Everything above it: near-valid and mutated byte strings through Server.service, "
                 "BareServer.service and http Client.service on fake sockets with a second, healthy connection that must still be served: bounded natively. " + HTTP_NOTE)
 PROPS["C14"] = dict(
-    contracts=[], harness="harness.http_native:C14", level="exploration", technique="bounded runtime contract (round trip Requester.build -> Requestant.parse -> Server.buildEnviron) -- stand-in; the property runs through urllib.parse/json/str.format chains that neither solver decides",
-    explanation="Bounded stand-in only (DESIGN.md C14): random methods, unicode/reserved-character paths, query dicts, header sets, raw/JSON/form bodies built by the real Requester and "
-                "recovered by the real Requestant and buildEnviron.")
+    contracts=["contracts.c14_request"], harness="harness.http_native:C14", level="other",
+    technique="contract-based deductive verification (pyvc) of the server side (Requestant.parseHead as a generator under contract, Server.buildEnviron); bounded runtime "
+              "contract (round trip Requester.build -> Requestant.parse -> Server.buildEnviron) for the client-side builder and the urllib/json/str.format chains",
+    trusted_base=["EXT: httping.parseLine / parseLeader as incremental parsers (None until complete, then the line / header block), httping.parseRequestLine splits the start "
+                  "line, urllib urlsplit / unquote / quote and str.lower / upper / replace uninterpreted, Hict a case-insensitive mapping, int(str) raises ValueError or returns a value"],
+    assumptions=["the client side (Requester.build, updateQargsQuery, packHeader) and the byte-level header/body parsing are NOT under contract: bounded tier",
+                 "buildEnviron: at most 2 received headers (symbolic names and values)"],
+    explanation="PROVED: Requestant.parseHead starts every request from a fresh, empty header mapping that then holds exactly the parsed header block; stores the start line's method, "
+                "the unquoted url path and the query as received; version (1,0)/(1,1); chunked iff Transfer-Encoding is 'chunked'; length None / declared / 0 by the stated rules; "
+                "raises only HTTPException subclasses (closed connection, unknown protocol, bad url); waits by yielding None, ends by yielding True. Server.buildEnviron hands the "
+                "application exactly that method, QUOTE(path), the query as received, the body bytes (wsgi.input), CONTENT_TYPE/CONTENT_LENGTH and every received header as "
+                "HTTP_<NAME>, in a new dict per request. BOUNDED: random methods, unicode/reserved-character paths, query dicts, header sets, raw/JSON/form bodies built by the real "
+                "Requester and recovered by the real Requestant and buildEnviron.")
 PROPS["C18"] = dict(
     contracts=["contracts.http_responder", "contracts.http_server2"], harness="harness.http_native:C18", level="other",
     technique="contract-based deductive verification (pyvc) of Responder.write/start/reset/build and Server.serviceReps; bounded runtime contract on the real http.Server "
